@@ -192,6 +192,13 @@ def huge_age(ctx):
         if os.stat(f).st_mtime_ns != t:
             ctx.notes.append("huge_age: the file system clamps timestamps, scenario skipped")
             return
+        # times the calendar cannot express are reported or shown as seconds, never a panic
+        for act in (["-ls"], ["-printf", "%t %TY %T@ %Tc\n"], ["-printf", "%a %AY\n"]):
+            p = subprocess.run([fw.FIND, "f"] + act, stdout=subprocess.PIPE, stderr=subprocess.PIPE, cwd=d, env=xc.ENV, timeout=60)
+            ctx.count(("huge-age-output", tuple(act)), True, "huge-age")
+            if p.returncode not in (0, 1) or b"panicked" in p.stderr:
+                ctx.violation("find f %s on a file older than 2^63 seconds: exit %d (%s)" % (" ".join(act), p.returncode, p.stderr.decode("utf-8", "replace")[:100]),
+                              {"property": "C15", "kind": "huge-age-output", "action": act, "exit": p.returncode, "stderr": p.stderr.decode("utf-8", "replace")[:300]})
         import time
         age = int(time.time()) - (-2 ** 63 + 10)
         qd, qm = age // 86400, age // 60
